@@ -67,7 +67,7 @@ def run(ctx):
     modes += ["bigasset+kill:lq.finish.recv@seed-bigasset:1"] * (3 if quick else 6)
     # a graceful stop while the first attempt of a URL is in flight; the attempt is cut after the stop began, the retry
     # would succeed (the worker hands a finished seed on only every other time: several cases)
-    modes += ["flaky+stop:req:1"] * (3 if quick else 8)
+    modes += ["flaky+stop:req:1"] * (5 if quick else 10)
     if ctx.replay:
         modes = []
     from concurrent.futures import ThreadPoolExecutor
